@@ -473,6 +473,7 @@ func (r *vfRef) check(d *vfOpD, a vfAnswer) {
 		seen[id] = true
 		if id == d.id {
 			vfAssert(!failedSelf, "C06:not-both-failed-and-programmed")
+			vfAssert(r.known(d.ni), "C12:acknowledged-only-in-a-known-network-instance")
 		}
 		if x.typ == vfDELETE {
 			vfAssert(r.legitOK(x), "C03:delete-acked-only-if-unreferenced")
